@@ -25,7 +25,7 @@ ASSUMPTIONS = ["non-negative integer sums", "k-parameters >= 1"]
 
 def bounds(tier):
     q = tier == "quick"
-    return {"vectors": f"{{0..4}}^k for k=1..{5 if q else 7}", "weights": "{1,2,3}^k for k<=3", "k-parameter": "1..k+2",
+    return {"vectors": f"{{0..4}}^k for k=1..{5 if q else 8}", "weights": "{1,2,3}^k for k<=3", "k-parameter": "1..k+2",
             "long vectors": "all multisets over {4,7} with " + ("8,15,16,17,24" if q else "8,12,15,16,17,20,24,31,32,33,40,64,65") + " entries, over {0,1,2} and {1,5,9} up to " + ("17" if q else "24") + " entries, in ascending, descending and riffled order",
             "big": "{0, 1, 2**31+1, 2**32+3, 2**50+1}^k, k<=4",
             "in place": f"one list / one array object walked through {{0..3}}^k, k<={4 if q else 5}, by single-entry mutations, objective objects reused, every evaluation twice",
@@ -38,7 +38,7 @@ BIG = (0, 1, 2 ** 31 + 1, 2 ** 32 + 3, 2 ** 50 + 1)
 
 def tasks(tier):
     q = tier == "quick"
-    K = 5 if q else 7
+    K = 5 if q else 8
     ts = []
     for k in range(1, K + 1):
         for ch in spaces.chunked(product(range(5), repeat=k), 400):
